@@ -777,6 +777,7 @@ TABLE = [
     # settings without a documented range (low == "free"): every listed value is valid; what is checked is that the value
     # arrives, reads back, and that the derived quantities follow it on every assignment path
     ("characteristics", "pixel_reset_voltage", "free", [4.0, 5.5, 7.0], True, True, 0.5, False, APD),
+    ("characteristics", "common_voltage", "free", [0.5, 1.25, 2.0], True, True, 0.5, False, APD),
 ]
 PATHS = ["ctor", "yaml", "setter", "procset", "sweep", "yaml-sweep", "yaml-exp"]
 # "yaml-exp": the value is written in the file the way people write it by hand, in exponent notation without a decimal
@@ -910,11 +911,15 @@ def run_range(case):
             elif path == "ctor":
                 f = json.loads(json.dumps(base))
                 f[sec][field] = value
+                if field == "common_voltage":
+                    f[sec].pop("pixel_reset_voltage")       # (an APD is described by two of gain / reset / common voltage)
                 det = build_detector(kind, f["geometry"], f["environment"], f["characteristics"])
                 got = _get(getattr(det, sec), field)
             elif path == "yaml":
                 f = json.loads(json.dumps(base))
                 f[sec][field] = value
+                if field == "common_voltage":
+                    f[sec].pop("pixel_reset_voltage")
                 d = {"exposure": {"readout": {"times": [1.0]}}, f"{kind}_detector": f, "pipeline": {}}
                 cfg = pyxel.loads(yaml_text(d))
                 got = _get(getattr(cfg.detector, sec), field)
@@ -940,7 +945,7 @@ def run_range(case):
                 got = _get(getattr(proc.detector, sec), field)
             elif path == "yaml-sweep":
                 d = {"observation": {"mode": "sequential",
-                                     "parameters": [{"key": f"detector.{sec}.{field}", "values": [base[sec][field], value]}]},
+                                     "parameters": [{"key": f"detector.{sec}.{field}", "values": [base[sec].get(field, 1.0), value]}]},
                      f"{kind}_detector": base,
                      "pipeline": {"photon_collection": [{"name": "seen", "func": SEEN,
                                                          "arguments": {"section": sec, "field": field}}]}}
@@ -955,7 +960,7 @@ def run_range(case):
                 pipe = build_pipeline({"photon_collection": [{"name": "seen", "func": SEEN,
                                                               "arguments": {"section": sec, "field": field}}]})
                 obs = Observation(parameters=[ParameterValues(key=f"detector.{sec}.{field}",
-                                                              values=[base[sec][field], value])],
+                                                              values=[base[sec].get(field, 1.0), value])],
                                   mode="sequential", readout=mk.readout([1.0]))
                 del TRACE[:]
                 pyxel.run_mode(obs, det, pipe)
